@@ -46,15 +46,17 @@ def generate(ctx, q, rnd):
         ctx.notes.append("behaviours replayed: %d from cache %s" % (len(behs), cache))
         return behs
     suf = ".cfg" if q else "_thorough.cfg"
-    cap = (1500, 1200, 600) if q else (12000, 10000, 5000)
-    simcap = (300, 150) if q else (6000, 3000)
-    if os.environ.get("VERIF_C04_CAPS"):     # development knob: "tree,db,oi,sim,simoi"
+    cap = (1200, 1000, 800, 600) if q else (8000, 6000, 10000, 4000)
+    simcap = (300, 150) if q else (3000, 1500)
+    if os.environ.get("VERIF_C04_CAPS"):     # development knob: "tree,db,dbconf,oi,sim,simoi"
         v = [int(x) for x in os.environ["VERIF_C04_CAPS"].split(",")]
-        cap, simcap = tuple(v[:3]), tuple(v[3:5])
+        cap, simcap = tuple(v[:4]), tuple(v[4:6])
     parts = []
-    for name, n in zip(("tree", "db", "oi"), cap):
-        allb = drop_prefixes(behaviours(ctx, SPEC, "MC_RevTree", "Beh_RevTree_%s%s" % (name, suf), timeout=3000))
-        if not q and name != "oi":   # the thorough tier also replays the whole small cover
+    for name, n in zip(("tree", "db", "dbconf", "oi"), cap):
+        # dbconf: conflicts allowed, three steps - the writes after which the winner falls back to an older live branch
+        cfgname = "Beh_RevTree_dbconf.cfg" if name == "dbconf" else "Beh_RevTree_%s%s" % (name, suf)
+        allb = drop_prefixes(behaviours(ctx, SPEC, "MC_RevTree", cfgname, timeout=3000))
+        if not q and name in ("tree", "db"):   # the thorough tier also replays (a sample of) the small covers
             allb += drop_prefixes(behaviours(ctx, SPEC, "MC_RevTree", "Beh_RevTree_%s.cfg" % name, timeout=3000))
         parts.append((name, len(allb), sample(rnd, allb, n)))
     # (TLC's simulator evaluates the exporting invariant on every successor of the last step: sample them)
@@ -265,5 +267,11 @@ def measure(ctx, groups, end):
             c["two_replicas_same_accepted"] += (acc[1] == acc[2] and bool(acc[1]))
     ctx.cov["distinct_nontrivial"] += c["two_leaves"]
     ctx.cov["c04_reach"] = c
+    hist = {}
+    for g in groups:
+        for r in g[1:]:
+            k = "%s/%s%s" % (g[0]["lvl"], r["a"], "" if r["ok"] else "(rejected)")
+            hist[k] = hist.get(k, 0) + 1
+    ctx.cov["c04_action_histogram"] = hist
     if c["two_replicas"] and not c["two_replicas_same_accepted"]:
         raise Inconclusive("no two-replica behaviour ended with the same accepted set: OrderIndependent would be vacuous")
